@@ -70,6 +70,10 @@ CLAIMS = {
          "Theorems C11_*: for every parameter list the tables driving reference assignment and swap cover every field, MANUAL exactly where the value type is not trivially assignable/swappable and otherwise inside a run of consecutive trivial fields (RunsThm.runs_structure, induction over the list with an array invariant) - so no field is skipped and no non-trivial object is moved byte-wise; iterator expressions equal index arithmetic. "
          "PARTIAL: that assign/swap/rotate/reverse/swap_ranges reproduce exactly the source values is decided by the tie: model of assign_one/swap_one as written (memmove of [begin K, end INDEX), object-wise MANUAL fields with events) vs the real library on histories of reference assignment in four forms (const, lvalue, rvalue=move, through iterators), swap/iter_swap, writes through six access paths incl. structured bindings, iterator batteries on const and mutable iterators, std::rotate/reverse/swap_ranges, on lists covering every run-table shape up to four fields; content oracle = a Python list of tuples; access paths cross-checked in every observation.",
          "5 C11"),
+ "C12": ("proof (element from reference = deep copy, for every trivially constructible list; swap; moved-from state) + correspondence on element histories over allocator kinds with a content oracle",
+         "Theorem C12_element_from_reference_is_deep_copy: for every well-formed list of trivially copy/move-constructible types, every aligned source position, junk content and construction form the new element's own block holds exactly the source tuple (elem_at at offset 0), its reference is the field table of that tuple, the source bytes are unchanged and the allocation is the rounded-up byte size; swap exchanges contents and (with POCS) allocators; a moved-from element owns nothing. "
+         "PARTIAL: copy/move assignment paths (field-wise, reallocating, stealing, element-wise between unequal allocators), allocator-extended constructors, reference<->element assignment and non-trivial value types are modelled as written (Elem.v) and decided by the tie: element histories on ~55 lists x 8 (quick) / 32 (thorough) allocator kinds incl. assignment into moved-from elements, different varying sizes, default and explicit allocators; per step the element's fields, allocator, block identity and units vs model, a Python content oracle, block-sharing check against all vectors, get<I>/structured bindings/reference-from-element path agreement, element comparisons by content.",
+         "5 C12"),
 }
 
 checks = []
